@@ -185,6 +185,10 @@ func (w *World) Shutdown() {
 		if t.Chan != nil && t.RevServer == nil {
 			t.Chan.Close()
 		}
+		if t.Sibling != nil {
+			t.Sibling.Close()
+			t.SiblingCancel()
+		}
 		if t.RevServer != nil {
 			t.RevServer.Stop()
 		}
